@@ -122,6 +122,9 @@ func init() {
 		if !*keep {
 			defer os.RemoveAll(root)
 		}
+		// the run-time family's cases import the instrumentation package
+		_ = os.MkdirAll(filepath.Join(root, "rt"), 0755)
+		_ = os.WriteFile(filepath.Join(root, "rt", "rt.go"), []byte(rtSource), 0644)
 		var cases []GCase
 		judgeProp = *prop
 		if *only != "" {
